@@ -83,9 +83,10 @@ def margin_units(nrep, nnon, nunexp=0, states=("AA",), counties=2, cls=True, dis
 class BootStub:
     """replaces BootstrapElectionModel.compute_bootstrap_errors"""
 
-    def __init__(self, ctx, B, tag="", concrete_turnout=True):
+    def __init__(self, ctx, B, tag="", concrete_turnout=True, symbolic_rows=None):
         self.ctx, self.B, self.tag = ctx, B, tag
         self.concrete_turnout = concrete_turnout
+        self.symbolic_rows = symbolic_rows  # None = every outstanding unit has symbolic margin draws
         self.state = None
         self.models = []
 
@@ -121,10 +122,18 @@ class BootStub:
     def fresh(self, n_test):
         c, B, t = self.ctx, self.B, self.tag
 
+        rows = self.symbolic_rows
+
         def mat(name, shape):
             a = np.empty(shape, dtype=object if not getattr(c, "concrete", False) else float)
             for idx in np.ndindex(*shape):
-                a[idx] = c.real("%s%s_%s" % (t, name, "_".join(map(str, idx))), -10 ** 6, 10 ** 6)
+                if rows is not None and idx[0] not in rows:
+                    # concrete draws for this unit (alternating sign, inside I_boot for the concrete turnout draws)
+                    val = float((-1) ** (idx[0] + idx[1]) * (300 + 70 * idx[1] + 11 * idx[0] + (37 if name == "e2" else 0)))
+                    # (a Sym constant in symbolic mode: numpy's object-dtype round() needs every cell to have .rint)
+                    a[idx] = val if getattr(c, "concrete", False) else Sym(sym.RV(val))
+                else:
+                    a[idx] = c.real("%s%s_%s" % (t, name, "_".join(map(str, idx))), -10 ** 6, 10 ** 6)
             return a
 
         e1, e2 = mat("e1", (n_test, B)), mat("e2", (n_test, B))
@@ -162,7 +171,8 @@ def run_bs_client(ctx, case, sc=None, tag="", client=None, boot=None, config=Non
     sc = sc or build_bs(ctx, case)
     own = boot is None
     if own:
-        boot = BootStub(ctx, case.get("B", 2), tag=tag, concrete_turnout=case.get("concrete_turnout", True)).install()
+        boot = BootStub(ctx, case.get("B", 2), tag=tag, concrete_turnout=case.get("concrete_turnout", True),
+                        symbolic_rows=case.get("symbolic_rows")).install()
     c = dict(case, pi="bootstrap", estimands=["margin"], features=["baseline_normalized_margin"])
     mp = dict(c.get("model_parameters", {}))
     mp.setdefault("B", case.get("B", 2))
